@@ -68,7 +68,11 @@ func execLife(in lifeInput, scratch string) (Case, error) {
 	var mu sync.Mutex
 	docs := 0
 	deleted := false
+	blocked := false
 	defer func() {
+		if blocked {
+			return // the bucket is wedged: any clean-up call would block as well
+		}
 		for _, f := range feeds {
 			if atomic.LoadInt32(&f.gate) == 2 {
 				close(f.rel)
@@ -121,7 +125,9 @@ func execLife(in lifeInput, scratch string) (Case, error) {
 	for _, op := range in.Ops {
 		ok := true
 		var opT Term
-		func() {
+		opDone := make(chan struct{})
+		go func() {
+			defer close(opDone)
 			defer func() {
 				if r := recover(); r != nil {
 					c.Fatal = fmt.Sprintf("panic in %s: %v", op.Kind, r)
@@ -265,6 +271,13 @@ func execLife(in lifeInput, scratch string) (Case, error) {
 				}
 			}
 		}()
+		select {
+		case <-opDone:
+		case <-time.After(15 * time.Second):
+			// a call that does not come back: a lock left held, or a wait for something that will never happen
+			c.Fatal = fmt.Sprintf("%s did not return within 15s", op.Kind)
+			blocked = true
+		}
 		if c.Fatal != "" {
 			break
 		}
@@ -388,6 +401,21 @@ func genLife(r *rand.Rand) lifeInput {
 			add(lifeOp{Kind: "drop", H: h, Coll: colls[k]})
 			colls = append(colls[:k], colls[k+1:]...)
 		case x < 18:
+			if r.Intn(2) == 0 {
+				// let the handle open a collection first, then close it, then try to start a feed through the
+				// collection object it still holds, and write through another handle
+				cn := pick(r, colls)
+				add(lifeOp{Kind: "write", H: h, Coll: cn})
+				add(lifeOp{Kind: "close", H: h})
+				open[h] = false
+				add(lifeOp{Kind: "start", F: nf, H: h, Coll: cn, Dump: r.Intn(4) == 0})
+				feedColl[nf] = cn
+				nf++
+				if h2 := anyOpen(); h2 >= 0 {
+					add(lifeOp{Kind: "write", H: h2, Coll: cn})
+				}
+				continue
+			}
 			add(lifeOp{Kind: "close", H: h})
 			open[h] = false
 		case x == 19 && i > 4:
